@@ -119,7 +119,7 @@ def main(tier, seed):
         insts.append(hi)
     # the edges of the valid input space (a single location, every departure at the same instant, exactly one departure
     # segment, with slots without tracks / empty depots / idle types); own random stream
-    insts += instgen.boundary_instances(random.Random(seed * 131 + 6), 10 if tier == "quick" else 300)
+    insts += instgen.boundary_instances(random.Random(seed * 131 + 6), 12 if tier == "quick" else 300)
     results = lib.pmap(run_one, [(d, k, inst) for k, inst in enumerate(insts)], workers=8)
     return solvefam.conclude(PID, tier, seed, t0, proof, results,
                              "exit status / wall clock of a child process running server::solve_instance, debug "
